@@ -353,7 +353,7 @@ def shared(ctx):
         for i in o.instances:
             ob.instance(o.oid + ": " + i["what"], i["detail"])
         for r in o.refutations:
-            ob.refute(o.oid + ":" + r["key"], r["msg"], None)
+            ob.refute(o.oid + ":" + r["key"], r["msg"], r.get("loc"))
         for u in o.unknowns:
             ob.unknown(u)
 
@@ -370,7 +370,7 @@ def shared_mapping(ctx):
             for i in o.instances[:150]:
                 ob.instance(o.oid + ": " + i["what"], i["detail"] or "ok")
             for r in o.refutations:
-                ob.refute(o.oid + ":" + r["key"], r["msg"], None)
+                ob.refute(o.oid + ":" + r["key"], r["msg"], r.get("loc"))
             for u in o.unknowns:
                 ob.unknown(u)
 
